@@ -220,83 +220,11 @@ def check(ctx):
                "hat(vee(M)) != M for skew-symmetric M",
                key="C09.1:hat-vee")
     # --------------------------------------------------------------- C09.2
-    r1, r2 = tm.param("r1"), tm.param("r2")
-    ops = _dot_operands(run("relative_so3").ret)
-    ok = ops is not None and _transpose_of(ops[0]) is r1 and ops[1] is r2
-    ctx.ob("C09.2", prog.func(L + "relative_so3"), ok,
-           "relative_so3(r1, r2) = r1^T . r2" if ok else
-           f"relative_so3 = {fmt(run('relative_so3').ret)}",
-           key="C09.2:relative_so3")
-    p1, p2 = tm.param("p1"), tm.param("p2")
-    ret = run("relative_se3").ret
-    ops = _dot_operands(ret)
-    ok = ops is not None and is_call_to(ops[0], L + "se3_inverse",
-                                        L + "sim3_inverse") and \
-        ops[0].args[1][0] is p1 and ops[1] is p2
-    ctx.ob("C09.2", prog.func(L + "relative_se3"), ok,
-           "relative_se3(p1, p2) = inverse(p1) . p2" if ok else
-           f"relative_se3 = {fmt(ret)}", key="C09.2:relative_se3")
-    p = tm.param("p")
-    from ..lib import strip_copies
-    ret = strip_copies(run("se3_inverse").ret)
-    ok = False
-    if is_call_to(ret, L + "se3") and len(ret.args[1]) == 2:
-        ri, ti = ret.args[1]
-        o = _neg_dot(ti)
-        ok = _transpose_of(ri) is tm.sub(p, R33) and o is not None and \
-            o[0] is ri and o[1] is tm.sub(p, T3)
-    ctx.ob("C09.2", prog.func(L + "se3_inverse"), ok,
-           "se3_inverse(p) = se3(R^T, -R^T t) of p's own blocks" if ok else
-           f"se3_inverse = {fmt(ret)}", key="C09.2:se3_inverse")
-    a = tm.param("a")
-    from ..lib import strip_copies
-    ret = strip_copies(run("sim3_inverse").ret)
-    ok = False
-    if is_call_to(ret, L + "sim3") and len(ret.args[1]) == 3:
-        ri, ti, si = ret.args[1]
-        S = tm.call(tm.func(L + "sim3_scale"), (a,), ())
-        inv_s = si
-        recip = si.op == "binop" and si.args[0] == "Div" and \
-            tm.is_const(si.args[1]) and tm.const_val(si.args[1]) == 1 and \
-            si.args[2] is S
-        base = _transpose_of(ri)
-        o = _neg_dot(ti)
-        ok = recip and base is not None and base.op == "binop" and \
-            base.args[0] == "Mult" and {base.args[1], base.args[2]} == \
-            {inv_s, tm.sub(a, R33)} and o is not None
-        if ok:
-            ok = o[0] is ri and o[1].op == "binop" and \
-                o[1].args[0] == "Mult" and {o[1].args[1], o[1].args[2]} == \
-                {inv_s, tm.sub(a, T3)}
-    ctx.ob("C09.2", prog.func(L + "sim3_inverse"), ok,
-           "sim3_inverse(a): rotation block, translation and returned "
-           "scale all use the reciprocal scale 1/s" if ok else
-           f"sim3_inverse = {fmt(ret)}", key="C09.2:sim3_inverse")
-    for name, rot_expected in (("se3", tm.param("r")),
-                               ("sim3", None)):
-        # (for arguments that are given: `x is None` defaults do not apply)
-        ret = _given(run(name).ret)
-        ok = ret.op == "upd" and ret.args[0].op == "upd" and \
-            is_call_to(ret.args[0].args[0], "numpy.eye") and \
-            tm.is_const(ret.args[0].args[0].args[1][0], 4)
-        if ok:
-            stores = {ret.args[1]: ret.args[2],
-                      ret.args[0].args[1]: ret.args[0].args[2]}
-            rot, tr_ = stores.get(R33), stores.get(T3)
-            if name == "se3":
-                ok = rot is tm.param("r") and tr_ is tm.param("t")
-            else:
-                ok = rot is not None and rot.op == "binop" and \
-                    rot.args[0] == "Mult" and {rot.args[1], rot.args[2]} \
-                    == {tm.param("s"), tm.param("r")} and \
-                    tr_ is tm.param("t")
-        ctx.ob("C09.2", prog.func(L + name), ok,
-               f"{name}(): {'s*' if name == 'sim3' else ''}r in [:3,:3], t "
-               f"in [:3,3] of eye(4)" if ok else f"{name}() = {fmt(ret)}",
-               key=f"C09.2:{name}")
-    ret = run("so3_from_se3").ret
-    ctx.ob("C09.2", prog.func(L + "so3_from_se3"), ret is tm.sub(p, R33),
-           "so3_from_se3(p) = p[:3,:3]", key="C09.2:so3_from_se3")
+    # decided by entry evaluation (sa/affine.py): every entry of the matrix a
+    # group operation returns, as a polynomial in the entries of its
+    # arguments, must be the polynomial of the definition — however the
+    # blocks are sliced, transposed, multiplied or assembled
+    ctx.section(_group_ops, ctx, prog)
     # --------------------------------------------------------------- C09.3
     r = tm.param("r")
     ret = run("is_so3").ret
@@ -515,6 +443,185 @@ def check(ctx):
                             f"{fmt(ret)}")
 
 
+def _group_ops(ctx, prog):
+    from ..affine import Aff, AffError, atom, f_add, mul, p_const, show, \
+        subst, inverse
+    from ..known_functions import KNOWN_FUNCTIONS
+    from ..lib import strip_asarray
+    looked = ("se3", "sim3", "so3_from_se3", "se3_inverse", "sim3_inverse")
+
+    def inl(fn):
+        return fn.module.name == "evo.core.lie_algebra" and (
+            fn.name in looked or fn.qualname not in KNOWN_FUNCTIONS)
+
+    def A(name, *idx):
+        return atom(("src", name) + idx)
+
+    def neg(f):
+        return f_add({}, f, -1.0)
+
+    def total(fs):
+        out = {}
+        for f in fs:
+            out = f_add(out, f)
+        return out
+    S = ("s", "S")                     # sim3_scale(a), opaque
+    s_par = ("s", "s")
+    bottom = lambda j: p_const(1 if j == 3 else 0)
+
+    def inv_entries(src, inv_s=None):
+        """definition of the inverse of a (scaled) rigid transformation
+        [[sR, t], [0, 1]] from its own entries"""
+        k = p_const(1) if inv_s is None else mul(inv_s, inv_s)
+
+        def e(i, j):
+            if i == 3:
+                return bottom(j)
+            if j < 3:
+                return mul(k, A(src, j, i))
+            return neg(mul(k, total(mul(A(src, m_, i), A(src, m_, 3))
+                                    for m_ in range(3))))
+        return e
+    inv_S = inverse(atom(S))
+    se3_inv_p1 = inv_entries("p1")
+    specs = {
+        "se3": (lambda i, j: bottom(j) if i == 3 else (
+            A("r", i, j) if j < 3 else A("t", i)), "[[r, t], [0, 1]]"),
+        "sim3": (lambda i, j: bottom(j) if i == 3 else (
+            mul(atom(s_par), A("r", i, j)) if j < 3 else A("t", i)),
+            "[[s*r, t], [0, 1]]"),
+        "se3_inverse": (inv_entries("p"), "[[R^T, -R^T t], [0, 1]]"),
+        "sim3_inverse": (inv_entries("a", inv_S),
+                         "[[R^T / s, -R^T t / s], [0, 1]] with s = "
+                         "sim3_scale(a)"),
+        "relative_so3": (lambda i, j: total(
+            mul(A("r1", k, i), A("r2", k, j)) for k in range(3)),
+            "r1^T . r2"),
+        "relative_se3": (lambda i, j: total(
+            mul(se3_inv_p1(i, k), A("p2", k, j)) for k in range(4)),
+            "inverse(p1) . p2"),
+        "so3_from_se3": (lambda i, j: A("p", i, j), "p[:3, :3]"),
+    }
+    shapes = {"r": [(3,), (3,)], "t": [(3,)], "p": [(4,), (4,)],
+              "a": [(4,), (4,)], "r1": [(3,), (3,)], "r2": [(3,), (3,)],
+              "p1": [(4,), (4,)], "p2": [(4,), (4,)]}
+    for name, (want, text) in specs.items():
+        f = prog.func(L + name)
+        r = Interp(prog, inline=inl, assume=_single, max_depth=3).run(f)
+        ret = strip_asarray(_given(r.ret))
+        scal = {tm.param("s"): "s",
+                tm.call(tm.func(L + "sim3_scale"), (tm.param("a"),), ()): "S"}
+        aff = Aff({tm.param(k): (k, d) for k, d in shapes.items()
+                   if k in f.params}, scal, [], {}, unname=Interp.unname)
+        # conditional constructions are judged case by case: every truth
+        # assignment of the conditions that occur in the value. A condition
+        # that *states an equality* (s == 1.0, (t == 0).all()) is used as
+        # such — the equated entries are replaced by the constant on both
+        # sides; any other condition (np.isclose(s, 1.0), ...) gives no
+        # licence to return something else than the definition
+        conds = []
+        for x in ret.walk():
+            if x.op == "ite" and not any(x.args[0] is c for c in conds):
+                conds.append(x.args[0])
+        bad, unknown = None, None
+        if len(conds) > 3:
+            unknown = f"{len(conds)} nested conditions"
+            conds = []
+        import itertools
+
+        def equalities(c: T, val: bool, aff):
+            """[(atom, number)] a condition with this truth value asserts"""
+            neg = False
+            while c.op == "not":
+                c, neg = c.args[0], not neg
+            truth = val != neg
+            out = []
+            if c.op == "cmp" and c.args[0] in ("Eq", "NotEq") and \
+                    (c.args[0] == "Eq") == truth and tm.is_const(c.args[2]) \
+                    and isinstance(tm.const_val(c.args[2]), (int, float)) \
+                    and not isinstance(tm.const_val(c.args[2]), bool):
+                try:
+                    if not aff.dims_of(c.args[1]):
+                        f_ = aff.entry_at(c.args[1], [])
+                        if len(f_) == 1 and list(f_.values()) == [1.0] and \
+                                len(list(f_)[0]) == 1:
+                            out.append((list(f_)[0][0],
+                                        float(tm.const_val(c.args[2]))))
+                except AffError:
+                    pass
+            arr = None
+            if is_call_to(c, ".all", "numpy.all") and truth:
+                inner = tm.method_recv(c) if tm.callee_name(c) == ".all" \
+                    else (c.args[1][0] if c.args[1] else None)
+                if inner is not None and inner.op == "cmp" and \
+                        inner.args[0] == "Eq" and tm.is_const(inner.args[2]):
+                    arr, cv = inner.args[1], inner.args[2]
+            if is_call_to(c, ".any", "numpy.any") and not truth:
+                arr = tm.method_recv(c) if tm.callee_name(c) == ".any" \
+                    else (c.args[1][0] if c.args[1] else None)
+                cv = const(0)
+            if arr is not None and isinstance(tm.const_val(cv), (int, float)):
+                try:
+                    d_ = aff.dims_of(arr)
+                    for idx in aff.positions(d_):
+                        f_ = aff.entry_at(arr, idx)
+                        if len(f_) == 1 and list(f_.values()) == [1.0] and \
+                                len(list(f_)[0]) == 1:
+                            out.append((list(f_)[0][0],
+                                        float(tm.const_val(cv))))
+                except AffError:
+                    pass
+            return out
+        for bits in itertools.product((True, False), repeat=len(conds)):
+            env = dict(zip(map(id, conds), bits))
+            t = tm.deep_select(ret, lambda a_: env.get(id(a_)))
+            case = ", ".join(f"{fmt(c)[:50]} is {v}"
+                             for c, v in zip(conds, bits))
+            try:
+                eqs = [e_ for c, v in zip(conds, bits)
+                       for e_ in equalities(c, v, aff)]
+                d = aff.dims_of(t)
+                n_ = 3 if name in ("relative_so3", "so3_from_se3") else 4
+                if d != [(n_,), (n_,)]:
+                    raise AffError(f"result shape {d}")
+                for i in range(n_):
+                    for j in range(n_):
+                        got = aff.entry_at(t, [(i,), (j,)])
+                        exp = want(i, j)
+                        for at_, cv in eqs:
+                            exp = subst(exp, at_, cv)
+                            got = subst(got, at_, cv)
+                        if got != exp and bad is None:
+                            # a test that was not understood as an equality
+                            # and is not a tolerance test either: cannot
+                            # tell whether it justifies the shortcut
+                            opaque = [c for c, v in zip(conds, bits)
+                                      if not equalities(c, v, aff) and
+                                      not equalities(c, not v, aff) and
+                                      not any(is_call_to(
+                                          x, "numpy.isclose",
+                                          "numpy.allclose", "math.isclose",
+                                          "builtins.abs", "numpy.abs")
+                                          for x in c.walk())]
+                            if opaque:
+                                unknown = (f"result under the test "
+                                           f"{fmt(opaque[0])[:80]}")
+                                continue
+                            bad = (f"entry ({i}, {j}) is {show(got)[:120]}, "
+                                   f"the definition gives {show(exp)[:120]}"
+                                   + (f" (when {case})" if case else ""))
+            except AffError as ex:
+                unknown = str(ex)
+        if unknown is not None and bad is None:
+            ctx.undecidable("C09.2", f, f"{name}: construction not "
+                            f"understood by the entry algebra: {unknown}")
+            continue
+        ctx.ob("C09.2", f, bad is None,
+               f"{name} = {text} (every entry, as a polynomial in the "
+               f"entries of the arguments)" if bad is None else
+               f"{name} is not {text}: {bad}", key=f"C09.2:{name}")
+
+
 def _given(t: T) -> T:
     """value for arguments that were passed: conditionals on
     `<parameter> is None` take the not-None alternative (at any depth)"""
@@ -522,6 +629,13 @@ def _given(t: T) -> T:
         if a.op == "cmp" and a.args[0] in ("Is", "IsNot") and \
                 a.args[1].op == "param" and a.args[2] is tm.NONE:
             return a.args[0] == "IsNot"
+        if a.op == "cmp" and a.args[0] in ("Is", "IsNot") and \
+                a.args[2] is tm.NONE:
+            # the result of slicing / arithmetic / transposition is an array
+            x = a.args[1]
+            if x.op in ("sub", "binop", "unop", "upd", "list", "tuple") or \
+                    (x.op == "attr" and x.args[1] == "T"):
+                return a.args[0] == "IsNot"
         return None
 
     def rw(x: T):
